@@ -19,6 +19,7 @@
 #include "vm.h"
 #include "vm_ffi.h"
 #include "../nanoisa/nvm_format.h"
+#include "../nanoisa/verifier.h"
 
 #include <stdio.h>
 #include <stdlib.h>
@@ -205,6 +206,17 @@ static void *client_thread(void *arg) {
 
         if (!module) {
             vmd_msg_send_error(fd, "Invalid .nvm format");
+            break;
+        }
+
+        /* Verify bytecode safety before execution, like the standalone VM does */
+        NvmVerifyResult vr = nvm_verify(module);
+        if (!vr.ok) {
+            char errbuf[512];
+            snprintf(errbuf, sizeof(errbuf), "Bytecode verification failed: %s", vr.error_msg);
+            vmd_msg_send_error(fd, errbuf);
+            vmd_msg_send_exit(fd, 1);
+            nvm_module_free(module);
             break;
         }
 
